@@ -92,7 +92,7 @@ func DateFromTime(t time.Time) (date *Date, err error) {
 	date = new(Date)
 
 	// Convert time to milliseconds since Unix epoch
-	msec := t.UnixNano() / int64(1000000)
+	msec := t.UnixMilli()
 
 	// Convert to big-endian bytes
 	for i := 7; i >= 0; i-- {
